@@ -524,6 +524,18 @@ def single_provider(case):
     return all(op == "t" or op[1] == "0" for op in case.split("|", 1)[1].split())
 
 
+def fetch_compare_prefix(case, text):
+    """the part of a fetcher output that is compared with the model: everything up to and including
+    the first 2-minute tick (the RequestList's stall handling on a tick changes which requests are
+    outstanding; that is delegator/RequestList territory and not modelled)"""
+    ops = case.split("|", 1)[1].split()
+    segs = text.split(" ; ")
+    if "t" in ops:
+        k = ops.index("t") + 1
+        return " ; ".join(segs[:k])
+    return text
+
+
 def fetch_model_input(case, impl):
     """the case with the delegator oracle attached: op@<peer>:<block>,... = the requests the
     implementation wrote during that op (taken from its own output)"""
